@@ -684,16 +684,57 @@ func c16Builder(c *ctx) {
 		}
 		c.r.Check(shape, rule, fkey(rule, fn, "len-then-part"), c.fpos(fn), "every part is emitted as len(part) followed by the part", "the builder does not emit len(part) followed by that same part for every part")
 	}
+	if fn := c.mustMethod(rule, "crypto/commitments", "builder", "AddPart"); fn != nil {
+		// every part handed in is kept, in order, empty or not: on every path to a return the one store to
+		// .parts is append(.parts, part)
+		var stores []*ssa.Store
+		for _, b := range fn.Blocks {
+			for _, in := range b.Instrs {
+				if st, ok := in.(*ssa.Store); ok {
+					if fr := core.AsFieldAddr(st.Addr); fr != nil && fr.Name == "parts" {
+						stores = append(stores, st)
+					}
+				}
+			}
+		}
+		ok, why := false, fmt.Sprintf("expected one store to .parts, found %d", len(stores))
+		if len(stores) == 1 {
+			st := stores[0]
+			ok, why = true, ""
+			for _, ret := range core.Returns(fn) {
+				if !st.Block().Dominates(ret.Block()) {
+					ok, why = false, "a return of AddPart is reachable without the part having been appended: a part (for instance an empty one) is dropped and every later part shifts down"
+				}
+			}
+			base, x, isApp := appendOf(st.Val)
+			if !isApp {
+				ok, why = false, "the value stored to .parts is not an append"
+			} else {
+				bt := core.TermOf(base)
+				if n, _ := bt.Field(); n != "parts" {
+					ok, why = false, "the append does not extend the parts collected so far"
+				}
+				segs, sok := core.SeqOf(x)
+				if !sok || len(segs) != 1 || segs[0].Kind != "elem" || core.TermOf(segs[0].V).Key() != paramTerm(fn, 1).Key() {
+					ok, why = false, "what is appended is not exactly the part handed in"
+				}
+			}
+		}
+		c.r.Check(ok, rule, fkey(rule, fn, "every-part-kept"), c.fpos(fn), "AddPart appends exactly the part handed in on every path", why)
+	}
 	if fn := c.mustFunc(rule, "crypto/commitments", "ParseSecrets"); fn != nil {
 		// the slice expression secrets[el : el+n]: guards 0 <= el, el+n <= len, n <= MaxPartSize, parts < PartsCap dominate it
 		var sl *ssa.Slice
 		for _, b := range fn.Blocks {
 			for _, in := range b.Instrs {
-				if s, ok := in.(*ssa.Slice); ok && core.TermOf(s.X).Key() == paramTerm(fn, 0).Key() {
-					sl = s
+				if s, ok := in.(*ssa.Slice); ok && core.TermOf(s.X).Key() == paramTerm(fn, 0).Key() && (s.Low != nil || s.High != nil) {
+					if s.Low != nil && s.High != nil || sl == nil {
+						sl = s
+					}
 				}
 			}
 		}
+		c16DanglingPrefix(c, rule, fn, sl)
 		if sl == nil || sl.Low == nil || sl.High == nil {
 			c.r.Bad(rule, fkey(rule, fn, "slice-bounds"), c.fpos(fn), "the part slice expression secrets[lo:hi] was not found")
 		} else {
@@ -739,4 +780,162 @@ func c16Builder(c *ctx) {
 	c.r.Floor(rule, 6)
 	_ = types.Typ
 	_ = token.ADD
+}
+
+// c16DanglingPrefix (R16.5): a length prefix that has been read is always followed by its part. The parser
+// alternates between "expect a length" and "expect the part" with a boolean flag; when the input ends
+// right after a length prefix the loop is left in the second state. Then either the (necessarily empty)
+// part is appended or an error is returned — a success return reachable in that state without an append
+// drops a trailing empty part (the packing does not round-trip) and accepts an encoding truncated right
+// after a length prefix. A parser written without the flag must append in the iteration that read the length.
+func c16DanglingPrefix(c *ctx, rule string, fn *ssa.Function, sl *ssa.Slice) {
+	key := fkey(rule, fn, "no-dangling-length-prefix")
+	if sl == nil {
+		c.r.Unk(rule, key, c.fpos(fn), "the part slice expression was not found")
+		return
+	}
+	var loop *core.Loop
+	for _, b := range fn.Blocks {
+		// the parsing loop: the natural loop (header with a back edge) containing the slice
+		for _, p := range b.Preds {
+			if b.Dominates(p) && core.Reaches(b, sl.Block()) && core.Reaches(sl.Block(), p) {
+				if loop == nil || loop.Header.Dominates(b) {
+					loop = &core.Loop{Header: b, In: map[*ssa.BasicBlock]bool{}}
+				}
+			}
+		}
+	}
+	if loop == nil {
+		c.r.Unk(rule, key, c.fpos(fn), "the parsing loop was not found")
+		return
+	}
+	h := loop.Header
+	inLoop := func(b *ssa.BasicBlock) bool { return h.Dominates(b) && core.Reaches(b, h) && b != nil }
+	// the packing of a single empty part is the one number 0: the guards in front of the loop must let
+	// an input of length 1 through
+	{
+		isLen := func(t *T) bool { return t.Op == "call:len" && t.Args[0].Key() == paramTerm(fn, 0).Key() }
+		one := core.PossibleIntCmp(core.TFactsAt(h, 0), isLen, 1)&core.EQ != 0
+		c.r.Check(one, rule, fkey(rule, fn, "single-empty-part-accepted"), c.fpos(fn), "an input of one element reaches the parsing loop", "inputs of one element are refused before parsing: the packing [0] of a single empty part does not round-trip")
+	}
+	isPartsAppend := func(in ssa.Instruction) bool {
+		call, ok := in.(*ssa.Call)
+		if !ok {
+			return false
+		}
+		_, x, isApp := appendOf(call)
+		if !isApp {
+			return false
+		}
+		_, isList := call.Type().Underlying().(*types.Slice)
+		if !isList {
+			return false
+		}
+		if sl2, isSl := call.Type().Underlying().(*types.Slice).Elem().Underlying().(*types.Slice); !isSl || sl2 == nil {
+			return false // parts is a list of lists
+		}
+		_ = x
+		return true
+	}
+	// the alternation flag
+	var flag *ssa.Phi
+	for _, in := range h.Instrs {
+		phi, ok := in.(*ssa.Phi)
+		if !ok {
+			break
+		}
+		if b, isB := phi.Type().Underlying().(*types.Basic); !isB || b.Kind() != types.Bool {
+			continue
+		}
+		for i, e := range phi.Edges {
+			if !inLoop(h.Preds[i]) {
+				continue
+			}
+			if u, isU := core.Strip(e).(*ssa.UnOp); isU && u.Op == token.NOT && core.Strip(u.X) == ssa.Value(phi) {
+				flag = phi
+			}
+		}
+	}
+	if flag == nil {
+		// no flag: the iteration that slices must append, on every completed iteration
+		ok := false
+		for _, b := range fn.Blocks {
+			if !inLoop(b) {
+				continue
+			}
+			for _, in := range b.Instrs {
+				if isPartsAppend(in) {
+					all := true
+					for i, p := range h.Preds {
+						_ = i
+						if inLoop(p) && !b.Dominates(p) {
+							all = false
+						}
+					}
+					if all {
+						ok = true
+					}
+				}
+			}
+		}
+		c.r.Check(ok, rule, key, c.pos(sl), "every iteration reads a length and appends its part", "the parsing loop has no state flag and does not append a part on every completed iteration")
+		return
+	}
+	// leave the loop with flag == false (a length was read, its part not yet taken): no success return without an append
+	var exits []*ssa.BasicBlock
+	for _, b := range fn.Blocks {
+		if !inLoop(b) {
+			continue
+		}
+		for _, s := range b.Succs {
+			if !inLoop(s) {
+				exits = append(exits, s)
+			}
+		}
+	}
+	seen := map[*ssa.BasicBlock]bool{}
+	var bad *ssa.Return
+	var walk func(b *ssa.BasicBlock)
+	walk = func(b *ssa.BasicBlock) {
+		if seen[b] || bad != nil {
+			return
+		}
+		seen[b] = true
+		for _, in := range b.Instrs {
+			if isPartsAppend(in) {
+				return
+			}
+		}
+		last := b.Instrs[len(b.Instrs)-1]
+		switch t := last.(type) {
+		case *ssa.Return:
+			if core.MayReturnNil(t, len(t.Results)-1) {
+				bad = t
+			}
+			return
+		case *ssa.If:
+			fs := core.CondFacts(t.Cond, true, t)
+			if len(fs) == 1 && fs[0].Kind == core.FBool && core.Strip(fs[0].X) == ssa.Value(flag) {
+				// the true edge means flag == fs[0].Bool; the state examined is flag == false
+				if fs[0].Bool {
+					walk(b.Succs[1])
+				} else {
+					walk(b.Succs[0])
+				}
+				return
+			}
+		}
+		for _, s := range b.Succs {
+			walk(s)
+		}
+	}
+	for _, e := range exits {
+		// only the normal exit (loop condition false) — error returns inside the loop are not exits to success
+		walk(e)
+	}
+	if bad != nil {
+		c.r.Bad(rule, key, c.pos(bad), "the success return is reachable when the input ends right after a length prefix, without the part being appended or an error: a trailing empty part is lost on the round trip and an encoding truncated after a length prefix is accepted")
+		return
+	}
+	c.r.OK(rule, key, c.pos(sl), "when the input ends right after a length prefix the parser appends the part or fails")
 }
